@@ -248,7 +248,8 @@ BHistoryFailing(c, evs) == BHistFrom(c, evs, 1, BHist0)
 \*     werr^2 = 1/(K W_P),  werr2^2 = (T^2 E_P + (T^2-1)/12 * sum w^2 / W^2) / K      (E_P = SErr2Calc of P)
 \* The observation is compressed: instead of the reverse indices, per bin the number of listed members per pattern
 \* position in the right block (cnt), the number of other / out-of-range entries (foreign) and of repeated
-\* entries (dups).
+\* entries (dups); the squared error-type outputs (err, werr, werr2) are recorded MULTIPLIED BY K, so that their
+\* expectations keep small denominators.
 BScPerBlock(c) == IF c.mode = "nperbin" THEN Len(c.x) \div c.b ELSE NBin(c)
 BScStep(c)     == IF c.mode = "nperbin" THEN Hi(c) - Lo(c) + 1 ELSE NBin(c) * c.b
 BScMembers(c, i0) ==                                    \* pattern positions of pattern bin i0 (0-based)
@@ -279,13 +280,13 @@ BScPlainFailing(pre, v, P, T, K, shift, m, va, e2, md) ==
        ELSE (IF BObsEq(m, RAdd(BLMean(v, ones, P, T), RInt(shift))) THEN {} ELSE {pre \o "mean"}) \cup
             (IF BObsIn(va, {pop, samp}) THEN {} ELSE {pre \o "std"}) \cup
             (IF BObsEq(md, RAdd(BLMedian(v, P, T, K \div T), RInt(shift))) THEN {} ELSE {pre \o "median"}) \cup
-            (IF BObsIn(e2, {RDiv(pop, RInt(NN)), RDiv(samp, RInt(NN))}) THEN {} ELSE {pre \o "err"})
+            (IF BObsIn(e2, {RDiv(pop, RInt(n)), RDiv(samp, RInt(n))}) THEN {} ELSE {pre \o "err"})      \* K err^2 = var / n
 BScWtFailing(pre, v, w, P, T, K, shift, m, va, ei, e2) ==
     IF P = {} THEN BWtFailing(pre, v, w, P, m, va, ei, e2)
     ELSE (IF BObsEq(m, RAdd(BLMean(v, w, P, T), RInt(shift))) THEN {} ELSE {pre \o "mean"}) \cup
          (IF BObsEq(va, BLVar(v, w, P, T)) THEN {} ELSE {pre \o "std"}) \cup
-         (IF BObsEq(ei, RNorm(1, K * SSumW(w, P))) THEN {} ELSE {pre \o "err"}) \cup
-         (IF BObsEq(e2, BLErr2Calc(v, w, P, T, K)) THEN {} ELSE {pre \o "err2"})
+         (IF BObsEq(ei, RNorm(1, SSumW(w, P))) THEN {} ELSE {pre \o "err"}) \cup                             \* K werr^2
+         (IF BObsEq(e2, BLErr2Calc(v, w, P, T, 1)) THEN {} ELSE {pre \o "err2"})                            \* K werr2^2
 
 BScBinFailing(c, sc, o, i) ==                           \* big bin i (1-based)
     LET per == BScPerBlock(c)  blk == (i - 1) \div per  i0 == (i - 1) % per
@@ -314,7 +315,7 @@ BScaleFailing(c, sc, o) ==
     ELSE LET nb == sc.NB * BScPerBlock(c)
              edgeflds == IF c.mode = "nperbin" THEN {o.low, o.high} ELSE {o.low, o.high, o.center}
          IN IF Len(o.hist) # nb THEN {"number_of_bins_at_scale"}
-            ELSE IF ~BShapeOK(nb, {o.comp.cnt, o.comp.foreign, o.comp.dups}) THEN {"rev_missing"}
+            ELSE IF Len(o.comp.cnt) # nb \/ Len(o.comp.foreign) # nb \/ Len(o.comp.dups) # nb THEN {"rev_missing"}
             ELSE IF ~BShapeOK(nb, edgeflds) THEN {"edges_missing_or_misshapen"}
             ELSE IF ~BShapeOK(nb, BStatFields(o)) THEN {"statistics_missing_or_misshapen"}
             ELSE UNION {BScBinFailing(c, sc, o, i) : i \in 1..nb}
